@@ -342,7 +342,7 @@ Fixpoint collect (emptyok : psw) (adv drains : bool) (fuel : nat) (last mx : N) 
         | BCont frag =>
             if last' =? 0 then COk (acc ++ [frag]) (msize + size)
             else collect emptyok adv drains f last' mx data off (msize + size) (acc ++ [frag])
-        | _ => CConn EProtocol   (* unreachable: checkFrameOrder only admits CONTINUATION here *)
+        | _ => CConn EProtocol   (* unreachable: checkFrameOrder only accepts CONTINUATION here *)
         end
     end
   end.
